@@ -25,6 +25,8 @@ type scenario struct {
 	SecondStrt bool   `json:"secondstart"` // a second start while the server runs
 	ConcShut   bool   `json:"concshut"`    // two Shutdown calls at once
 	LateSend   bool   `json:"latesend"`    // some requests are sent while the shutdown is in progress
+	FailFirst  int    `json:"failfirst"`   // 1: a start with nothing to serve on fails first; 2: a call that cannot succeed (ListenAndServe)
+	FailShut   bool   `json:"failshut"`    // ... then a Shutdown, which must be refused
 	Restart    bool   `json:"restart"`     // after everything returned: fresh listener, start again, shut down again
 	Seed       int64  `json:"seed"`
 }
@@ -48,6 +50,10 @@ func genScenario(mode string, r *rand.Rand) scenario {
 	sc.ConcShut = r.Intn(4) == 0
 	sc.LateSend = r.Intn(3) == 0
 	sc.Restart = mode == "tcp" && r.Intn(4) == 0
+	if r.Intn(3) == 0 {
+		sc.FailFirst = 1 + r.Intn(2)
+		sc.FailShut = r.Intn(2) == 0
+	}
 	return sc
 }
 
@@ -60,17 +66,50 @@ func jitter(r *rand.Rand) {
 	}
 }
 
+// failedStart: a start that cannot succeed returns an error and leaves the server stopped, so a
+// Shutdown right after it is refused and a corrected start is accepted (the generation that follows).
+func failedStart(w *World, sc *scenario) bool {
+	var p int
+	if sc.FailFirst == 1 {
+		w.BreakConfig()
+		p = w.Start(false)
+	} else {
+		p = w.Start(true)
+	}
+	_, ok := w.Await(w.startCh[p])
+	w.startDone[p] = true
+	if sc.FailFirst == 1 {
+		w.FixConfig()
+	}
+	if !ok {
+		w.Hang("ActivateAndServe(cannot succeed)", sc)
+		return false
+	}
+	if sc.FailShut {
+		h := w.Shutdown()
+		if _, ok := w.Await(w.shutCh[h]); !ok {
+			w.Hang("ShutdownContext(after a failed start)", sc)
+			return false
+		}
+	}
+	return true
+}
+
 // oneGeneration drives one start .. shutdown cycle.  It returns false when the run
 // had to be abandoned (a hang was reported).
 func oneGeneration(w *World, sc *scenario, r *rand.Rand, first bool) bool {
 	for len(w.started) > 0 { // a tick nobody waited for
 		<-w.started
 	}
-	p := w.Start()
+	p := w.Start(false)
 	raced := sc.Race && first
 	if !raced {
 		select {
 		case <-w.started:
+		case res := <-w.startCh[p]:
+			// the start came back without serving; the trace says why, the run ends here
+			w.startCh[p] <- res
+			return true
 		case <-time.After(waitLong):
 			w.Hang("ActivateAndServe(start)", sc)
 			return false
@@ -117,7 +156,7 @@ func oneGeneration(w *World, sc *scenario, r *rand.Rand, first bool) bool {
 		}
 	}
 	if sc.SecondStrt && !raced {
-		p2 := w.Start()
+		p2 := w.Start(false)
 		if res, ok := recvTimeout(w.startCh[p2], waitLong); !ok {
 			w.Hang("ActivateAndServe(already started)", sc)
 			return false
@@ -213,14 +252,25 @@ func record(mode, out string, nruns int) {
 		w := NewWorld(mode, sc.Seed, false, 150, &sum)
 		w.auto.Store(!sc.Ctx) // with an expiring ctx the handlers must still be inside when it expires
 		wr.Emit(sched.Event{Ev: "reset", Res: "-"})
-		ok := oneGeneration(w, &sc, r, true)
+		ok := true
+		if sc.FailFirst != 0 {
+			ok = failedStart(w, &sc)
+		}
+		if ok {
+			ok = oneGeneration(w, &sc, r, true)
+		}
 		if ok && sc.Restart {
 			w.Census(sc, false) // nobody is inside a critical section: DEV3
 			w.SetListener()
+			if sc.FailFirst != 0 {
+				ok = failedStart(w, &sc)
+			}
 			sc2 := sc
 			sc2.Race, sc2.Ctx = false, false
 			w.RearmHolds(true)
-			ok = oneGeneration(w, &sc2, r, false)
+			if ok {
+				ok = oneGeneration(w, &sc2, r, false)
+			}
 		}
 		if ok {
 			w.Census(sc, true)
